@@ -27,7 +27,7 @@ theorem assemble_spec {h : Host} {clock : Int} {pkts : List Pkt} {addr port : Na
     {r : StepOut} {rest : List Int} (hs : h.assemble clock pkts addr port seen draws = .ok (r, rest))
     {qa : QA} (hqa : asyncResponse pkts (Gen.Reply.ucast_source port) seen = some qa) :
     ∃ first, pkts.head? = some first ∧
-      r.outs = immediateOuts qa addr port first.id (Gen.Reply.ucast_source port) ∧
+      r.outs = immediateOuts qa addr port first.id first.nq (Gen.Reply.ucast_source port) ∧
       r.host.lis = h.lis ∧
       (r.host.outQ = h.outQ ∨ ∃ d, drawLo ≤ d ∧ d ≤ drawHi ∧ r.host.outQ = h.outQ.add outQP clock first.now d qa.mcastAgg) ∧
       (r.host.delayQ = h.delayQ ∨ ∃ d, drawLo ≤ d ∧ d ≤ drawHi ∧ r.host.delayQ = h.delayQ.add delayQP clock first.now d qa.mcastLast) := by
